@@ -904,3 +904,63 @@ fn c04_atomic_track_unordered_conflict_is_reported() {
     must_not_reach!("C04.atomic.track.returns_silently_despite_unordered_conflict");
 }
 }
+
+// ================================================================================================
+// C01.cover.atomic: the two "last access" summaries of an atomic must cover every earlier access
+// that races with a pending operation (history of two accesses recorded as `schedule` records them)
+// ================================================================================================
+
+fn any_atomic_action() -> Action {
+    match kani::any::<u8>() {
+        0 => Action::Load,
+        1 => Action::Store,
+        _ => Action::Rmw,
+    }
+}
+
+fn atomic_dependent(a: Action, b: Action) -> bool {
+    !(a == Action::Load && b == Action::Load)
+}
+
+fn atomic_cover_body(inside: bool) {
+    let mut st = any_atomic_state();
+    let (a1, a2, b) = (any_atomic_action(), any_atomic_action(), any_atomic_action());
+    let (v1, v2, vb) = (any_vv(), any_vv(), any_vv());
+    let (p1, p2): (usize, usize) = (kani::any(), kani::any());
+    kani::assume(p1 < p2);
+    st.set_last_access(a1, p1, &v1);
+    // `schedule` joins the clock of the access the new one depends on before recording it
+    if let Some(d) = st.last_dependent_access(a2) {
+        kani::assume(vv_le(d.version(), &v2));
+    }
+    st.set_last_access(a2, p2, &v2);
+    // finding region F4a: two mutually unordered loads, then a store / rmw
+    let region = a1 == Action::Load && a2 == Action::Load && b != Action::Load && !vv_le(&v1, &v2);
+    kani::assume(region == inside);
+    let got = st.last_dependent_access(b).map(|x| crate::rt::access::verif_kani::access_parts(x));
+    let covered = |hv: &VersionVec, hp: usize| -> bool {
+        match got {
+            Some((q, w)) => (q == hp && vv_eq(&w, hv)) || (vv_le(hv, &w) && !vv_le(&w, &vb)),
+            None => false,
+        }
+    };
+    oblige!("C01.cover.atomic.first_recorded_access_racing_with_pending_op_is_covered",
+        !(atomic_dependent(a1, b) && !vv_le(&v1, &vb)) || covered(&v1, p1));
+    oblige!("C01.cover.atomic.second_recorded_access_racing_with_pending_op_is_covered",
+        !(atomic_dependent(a2, b) && !vv_le(&v2, &vb)) || covered(&v2, p2));
+    reach!("c01_atomic_cover");
+}
+
+//@ props=C01 tier=quick fns=src/rt/atomic.rs::State::last_dependent_access,src/rt/atomic.rs::State::set_last_access bounded=history:2_accesses
+#[kani::proof]
+#[kani::unwind(9)]
+fn c01_atomic_cover__outside() {
+    atomic_cover_body(false);
+}
+
+//@ props=C01 tier=quick fns=src/rt/atomic.rs::State::last_dependent_access,src/rt/atomic.rs::State::set_last_access bounded=history:2_accesses finding=F4a expect=C01.cover.atomic.first_recorded_access_racing_with_pending_op_is_covered
+#[kani::proof]
+#[kani::unwind(9)]
+fn c01_atomic_cover__inside() {
+    atomic_cover_body(true);
+}
